@@ -17,7 +17,7 @@ from . import common
 
 ID = "C07"
 RUNS = {"quick": 6000, "thorough": 150000}
-TIME = {"quick": 75, "thorough": 1500}
+TIME = {"quick": 150, "thorough": 1500}
 RULE_TEXT = (
     "case = seeded profile with 1-2 planted solid coalitions (members ranked in varying orders, weights around multiples of the quota) + background ballots, "
     "STV (or IRV) with the Droop quota, m, simultaneous/one-by-one, fractional/random transfer, tiebreak in {random, borda, first_place}; executed under asc, desc, "
@@ -162,9 +162,64 @@ def generate_multiwin(rng, run_seed):
     return generate_tight(rng, run_seed)
 
 
+def generate_level(rng, run_seed):
+    """m candidates sitting exactly on the quota with EQUAL totals in the same round (each a solid coalition of one quota),
+    two of them mirror images of each other (every ballot comes with its image under their swap), the third different:
+    a scored tiebreak resolves the three-way tie only partly.  A filler keeps N inside the Droop window of q."""
+    for _ in range(40):
+        m = rng.randint(3, 4)
+        q = rng.randint(4, 12)
+        n = m + rng.randint(1, 2)
+        names, fam = G.gen_names(rng, n)
+        level, fillers = names[:m], names[m:]
+        B, C = level[1], level[2]
+        sw = {B: C, C: B}
+        F = rng.randint(max(1, q - m - 1), q - 1)
+        ballots = []
+
+        def tail(excl, k):
+            pool = [c for c in names if c not in excl]
+            return rng.sample(pool, min(k, len(pool)))
+
+        for x in level:
+            if x in (B, C):
+                continue
+            for w in partition(rng, q, rng.randint(1, 2)):
+                ballots.append(([x] + tail([x], rng.randint(0, n - 1)), w))
+        for w in partition(rng, q, rng.randint(1, 2)):
+            r = [B] + tail([B], rng.randint(0, n - 1))
+            ballots.append((r, w))
+            ballots.append(([sw.get(c, c) for c in r], w))
+        parts = partition(rng, F, min(len(fillers), F))
+        for f, w in zip(fillers, parts):
+            r = [f] + tail([f], rng.randint(0, 2))
+            if rng.random() < 0.5:
+                ballots.append((r, w))
+            else:
+                # keep the mirror symmetry of B and C also in the fillers' tails (only possible for even weights)
+                if w % 2 == 0 and w >= 2:
+                    ballots.append((r, w // 2))
+                    ballots.append(([sw.get(c, c) for c in r], w // 2))
+                else:
+                    ballots.append(([f], w))
+        N = sum(w for _, w in ballots)
+        if not ((q - 1) * (m + 1) <= N <= q * (m + 1) - 1):
+            continue
+        rng.shuffle(ballots)
+        cands = list(names)
+        rng.shuffle(cands)
+        jp = {"candidates": cands, "ballots": [{"r": [[c] for c in r], "w": canon.fs(Fraction(w))} for r, w in ballots]}
+        kw = {"m": m, "quota": "droop", "simultaneous": rng.random() < 0.25, "tiebreak": rng.choice(["borda", "borda", "first_place", "random"]), "transfer": "fractional"}
+        return {"rule": "STV", "kw": kw, "profile": jp, "shape": {"n": n, "names": fam, "wfam": "level", "planted": [[x] for x in sorted(level)], "nb": len(ballots), "tight": [1, q]},
+                "policies": common.gen_policies(rng, run_seed, kinds=("asc", "desc", "seeded")), "adv_seed": derive(run_seed, "adv") % 10**6}
+    return generate_tight(rng, run_seed)
+
+
 def generate(run_seed, tier):
     rng = stream(run_seed, "gen")
     u = rng.random()
+    if u >= 0.94:
+        return generate_level(rng, run_seed)
     if u < 0.08:
         return generate_straddle(rng, run_seed)
     if u < 0.14:
